@@ -16,12 +16,15 @@
 //!
 //! Model (`Driver/C16.lean` stream `proto`, `Model/Proto.lean`):
 //!   px filter <hex> -> pass <item id> | malformed
-//!   px light <hex>  -> pass <item id> [toomany] | malformed     (toomany: a GetLastStateProof answered "too many samples")
+//!   lchain <hashes> -> ok                                        (the main chain, told to the model after every `case` line)
+//!   px light <hex>  -> pass <item id> | malformed; a GetLastStateProof: pass <id> <toomany|start-above-last|unsorted|boundary|last=<n>>
+//!                      (the guard of GetLastStateProofProcess::execute that refused it, else the number of the last header of
+//!                      the SendLastStateProof reply: the tip when last_hash is not on the main chain)
 //!   px time <hex>   -> pass | malformed
 //!   px disc <hex>   -> none | getnodes <version> <count> <port|-> <flags> | nodes <0|1> <flags,..|-> | nodes-addr
 //!                      (`nodes-addr`: well-formed Nodes carrying at least one address — Multiaddr parsing is not modelled)
 //!   px ident <hex>  -> none | ok            (the reader's verdict; decode may still refuse the observed address)
-//!   px idv <hex>    -> none | some <flags> | utf8?   (`utf8?`: well-formed, right name, non-zero flag, non-ASCII client version)
+//!   px idv <hex>    -> none | some <flags>           (Identify::verify, its UTF-8 tests included)
 //!   px ping <hex>   -> none | ping <nonce> | pong <nonce>
 //!
 //! Oracle (implementation alone):
@@ -112,6 +115,12 @@ impl World {
         }
     }
 
+    /// tells the model the main chain (block hashes by number); after every `case` line
+    fn lchain(&self, out: &mut Out) {
+        let hs: Vec<String> = self.main.iter().map(|h| hex(h.as_slice())).collect();
+        out.op(&format!("lchain {}", hs.join(",")), "ok");
+    }
+
     fn cleanup(&self) {
         let _ = std::fs::remove_dir_all(&self.base_dir);
     }
@@ -163,10 +172,25 @@ impl World {
             "light" => SupportProtocols::LightClient.max_frame_length(),
             _ => SupportProtocols::Time.max_frame_length(),
         };
+        // a GetLastStateProof: where `last_hash` is on the main chain (else the tip)
+        let glsp_last: Option<u64> = if proto == "light" {
+            packed::LightClientMessageReader::from_slice(bytes).ok().and_then(|m| match m.to_enum() {
+                packed::LightClientMessageUnionReader::GetLastStateProof(r) => {
+                    let h = r.last_hash().to_entity();
+                    Some(self.main.iter().position(|x| *x == h).unwrap_or(self.main.len() - 1) as u64)
+                }
+                _ => None,
+            })
+        } else {
+            None
+        };
         let gate = {
             let rec = c.rec.lock().unwrap_or_else(|e| e.into_inner());
             let mut malformed = false;
             let mut too_many = false;
+            let mut guard: Option<&str> = None;
+            // the number of the last header of a SendLastStateProof reply
+            let mut reply_last: Option<u64> = None;
             for (p, reason) in &rec.bans[bans0..] {
                 if *p != peer {
                     continue;
@@ -177,12 +201,28 @@ impl World {
                     if proto == "light" && reason.contains("too many samples") {
                         too_many = true;
                     }
+                    if proto == "light" {
+                        if reason.contains("is greater than the last block number") {
+                            guard = Some("start-above-last");
+                        } else if reason.contains("should be monotonically increasing") {
+                            guard = Some("unsorted");
+                        } else if reason.contains("difficulty boundary should be greater than all difficulties") {
+                            guard = Some("boundary");
+                        }
+                    }
                     let code: String = reason.chars().take_while(|ch| ch.is_ascii_alphanumeric()).collect();
                     out.count(&format!("ban-{}-{}", proto, code));
                 }
             }
             for (_, _, d) in &rec.sent[sent0..] {
                 out.count(&format!("reply-{}", proto));
+                if proto == "light" {
+                    if let Ok(m) = packed::LightClientMessageReader::from_slice(d) {
+                        if let packed::LightClientMessageUnionReader::SendLastStateProof(r) = m.to_enum() {
+                            reply_last = Some(r.last_header().header().raw().number().into());
+                        }
+                    }
+                }
                 if d.len() > max_frame {
                     out.oracle_fail("proto-reply-oversize", &format!("{proto}: a reply of {} bytes (max_frame_length {max_frame})", d.len()));
                 }
@@ -194,6 +234,14 @@ impl World {
                 "pass".to_string()
             } else if too_many {
                 format!("pass {id} toomany")
+            } else if let Some(glsp_last) = glsp_last {
+                // a GetLastStateProof past "too many samples": the guard that refused it, else the number of the last
+                // header of the reply (when a later stage refused it without a reply: the number of `last_hash` on the
+                // main chain, or the tip for an unknown `last_hash`, by construction)
+                match guard {
+                    Some(g) => format!("pass {id} {g}"),
+                    None => format!("pass {id} last={}", reply_last.unwrap_or(glsp_last)),
+                }
             } else {
                 format!("pass {id}")
             }
@@ -264,19 +312,9 @@ impl World {
                         if r.is_some() && reader.is_none() {
                             out.oracle_fail("proto-decode-unverified", &format!("Identify::verify answered Some on {}", hex(bytes)));
                         }
-                        let undecided = reader
-                            .map(|rd| {
-                                let flag: u64 = rd.flag().into();
-                                rd.name().raw_data() == NET_NAME.as_bytes() && flag != 0 && rd.client_version().raw_data().iter().any(|b| *b >= 0x80)
-                            })
-                            .unwrap_or(false);
-                        if undecided {
-                            "utf8?".into()
-                        } else {
-                            match r {
-                                None => "none".into(),
-                                Some((f, _)) => format!("some {f}"),
-                            }
+                        match r {
+                            None => "none".into(),
+                            Some((f, _)) => format!("some {f}"),
                         }
                     }
                 }
@@ -626,6 +664,7 @@ fn case(w: &mut World, out: &mut Out, rng: &mut Rng, kind: u64) {
         _ => ("light", gen_light(w, rng).into_iter().map(|m| ("light", m)).collect()),
     };
     out.begin_case(label);
+    w.lchain(out);
     let tip0 = w.node.tip_hash();
     for (proto, m) in &msgs {
         w.px(out, proto, m);
@@ -652,8 +691,11 @@ pub fn run(opts: &Opts, mut out: Out) {
             match ts[0] {
                 "case" => {
                     out.begin_case(&ts[2..].join(" "));
+                    w.lchain(&mut out);
                     w.new_peer();
                 }
+                // (already told after the `case` line; the chain is the same in every run)
+                "lchain" => {}
                 "px" => {
                     let bytes = if ts[2] == "-" { vec![] } else { (0..ts[2].len() / 2).map(|i| u8::from_str_radix(&ts[2][2 * i..2 * i + 2], 16).expect("hex")).collect() };
                     w.px(&mut out, ts[1], &bytes);
@@ -682,6 +724,7 @@ pub fn run(opts: &Opts, mut out: Out) {
         ];
         for (class, m) in cases {
             out.begin_case(class);
+            w.lchain(&mut out);
             w.new_peer();
             w.px(&mut out, "light", &m);
         }
